@@ -231,7 +231,6 @@ impl Writer {
         })?;
 
         let mut revert_info = BatchRevertInfo {
-            original_offset: *cur_offset,
             allocated_block_ids: Vec::new(),
         };
 
@@ -239,47 +238,50 @@ impl Writer {
         let mut write_plan: Vec<(Block, u64, usize)> = Vec::new();
         let mut batch_idx = 0;
 
-        // Use a LOCAL offset for planning, don't update the writer's offset yet
+        // Use a LOCAL offset and a LOCAL block for planning: the writer's block, its offset
+        // and the reader chain are only touched once every write of the batch has succeeded,
+        // so a failed batch leaves the writer exactly where it was.
         let mut planning_offset = *cur_offset;
+        let mut planning_block = block.clone();
+        let mut sealed_blocks: Vec<Block> = Vec::new();
 
         while batch_idx < batch.len() {
             let data = batch[batch_idx];
             let need = (PREFIX_META_SIZE as u64) + (data.len() as u64);
-            let available = block.limit - planning_offset;
+            let available = planning_block.limit - planning_offset;
 
             if available >= need {
                 // Fits in current block
-                write_plan.push((block.clone(), planning_offset, batch_idx));
+                write_plan.push((planning_block.clone(), planning_offset, batch_idx));
                 planning_offset += need;
                 batch_idx += 1;
             } else {
                 // Need to seal and allocate new block
                 debug_print!(
                     "[batch] sealing block_id={}, used={}, need={}, limit={}",
-                    block.id,
+                    planning_block.id,
                     planning_offset,
                     need,
-                    block.limit
+                    planning_block.limit
                 );
-                FileStateTracker::set_block_unlocked(block.id as usize);
-                let mut sealed = block.clone();
-                sealed.used = planning_offset;
-                sealed.mmap.flush()?;
-                if sealed.used == 0 {
-                    // see Writer::write: an empty block never enters the reader chain
-                    BlockStateTracker::set_checkpointed_true(sealed.id as usize);
-                } else {
-                    let _ = self.reader.append_block_to_chain(&self.col, sealed);
-                }
 
                 // Allocate new block
                 // SAFETY: We hold locks, so this writer has exclusive ownership
                 let new_block =
-                    unsafe { self.allocator.alloc_block(need.max(DEFAULT_BLOCK_SIZE))? };
+                    match unsafe { self.allocator.alloc_block(need.max(DEFAULT_BLOCK_SIZE)) } {
+                        Ok(b) => b,
+                        Err(e) => {
+                            revert_info.release_allocated_blocks();
+                            return Err(e);
+                        }
+                    };
                 debug_print!("[batch] allocated new block_id={}", new_block.id);
 
+                let mut sealed = planning_block.clone();
+                sealed.used = planning_offset;
+                sealed_blocks.push(sealed);
                 revert_info.allocated_block_ids.push(new_block.id);
-                *block = new_block;
+                planning_block = new_block;
                 planning_offset = 0;
             }
         }
@@ -310,11 +312,19 @@ impl Writer {
                     &write_plan,
                     batch,
                     &mut revert_info,
-                    &mut *cur_offset,
-                    planning_offset,
+                    &sealed_blocks,
                     total_bytes_usize,
                 ) {
-                    Ok(()) => return Ok(()),
+                    Ok(()) => {
+                        self.publish_batch(
+                            &mut block,
+                            &mut cur_offset,
+                            sealed_blocks,
+                            planning_block,
+                            planning_offset,
+                        );
+                        return Ok(());
+                    }
                     Err(e) => {
                         if e.to_string().contains("io_uring init failed") {
                             debug_print!(
@@ -348,27 +358,28 @@ impl Writer {
                     }
                 }
 
-                *cur_offset = revert_info.original_offset;
-                for block_id in revert_info.allocated_block_ids {
-                    FileStateTracker::set_block_unlocked(block_id as usize);
-                }
+                revert_info.release_allocated_blocks();
                 return Err(e);
             }
         }
 
-        // Success - fsync touched files
-        let mut fsynced = HashSet::new();
-        for (blk, _, _) in write_plan.iter() {
-            if !fsynced.contains(&blk.file_path) {
-                blk.mmap.flush()?;
-                fsynced.insert(blk.file_path.clone());
-            }
+        // Success - fsync touched files (and the files of blocks this batch seals)
+        if let Err(e) = Self::flush_batch_files(&write_plan, &sealed_blocks) {
+            Self::rollback_batch(&write_plan, &revert_info);
+            return Err(e);
         }
 
-        // NOW update the writer's offset to make data visible to readers
+        // NOW seal the filled blocks and update the writer's block and offset to make
+        // data visible to readers
         #[cfg(walrus_verif)]
         crate::wal::verif::point("bw.before_publish");
-        *cur_offset = planning_offset;
+        self.publish_batch(
+            &mut block,
+            &mut cur_offset,
+            sealed_blocks,
+            planning_block,
+            planning_offset,
+        );
 
         debug_print!(
             "[batch] SUCCESS (mmap): wrote {} entries, {} bytes to topic={}",
@@ -385,8 +396,7 @@ impl Writer {
         write_plan: &[(Block, u64, usize)],
         batch: &[&[u8]],
         revert_info: &mut BatchRevertInfo,
-        cur_offset: &mut u64,
-        planning_offset: u64,
+        sealed_blocks: &[Block],
         total_bytes: usize,
     ) -> std::io::Result<()> {
         let ring_size = (write_plan.len() + 64).min(4096) as u32; // Cap at 4096, convert to u32
@@ -433,10 +443,7 @@ impl Writer {
                 io_uring::types::Fd(fd_backend.file().as_raw_fd())
             } else {
                 // Rollback and fail
-                *cur_offset = revert_info.original_offset;
-                for block_id in revert_info.allocated_block_ids.iter() {
-                    FileStateTracker::set_block_unlocked(*block_id as usize);
-                }
+                revert_info.release_allocated_blocks();
                 return Err(std::io::Error::new(
                     std::io::ErrorKind::Unsupported,
                     "batch writes require FD backend",
@@ -513,43 +520,25 @@ impl Writer {
                 #[cfg(walrus_verif)]
                 crate::wal::verif::io(crate::wal::verif::Io::BatchDone);
                 if !all_success {
-                    // Clean up garbage before rollback: zero headers for all planned entries
-                    for (blk, offset, _idx) in write_plan.iter() {
-                        let _ = blk.zero_range(*offset, PREFIX_META_SIZE as u64);
-                    }
-
-                    // Ensure zeros are persisted
-                    let mut fsynced = HashSet::new();
-                    for (blk, _, _) in write_plan.iter() {
-                        if fsynced.insert(blk.file_path.clone()) {
-                            let _ = blk.mmap.flush();
-                        }
-                    }
-
-                    // Rollback
-                    *cur_offset = revert_info.original_offset;
-                    for block_id in revert_info.allocated_block_ids.iter() {
-                        FileStateTracker::set_block_unlocked(*block_id as usize);
-                    }
+                    // Clean up garbage (zero the headers of all planned entries) and roll back
+                    Self::rollback_batch(write_plan, revert_info);
                     return Err(std::io::Error::new(
                         std::io::ErrorKind::Other,
                         "batch write failed, rolled back",
                     ));
                 }
 
-                // Success - fsync all touched files
-                let mut fsynced = HashSet::new();
-                for (blk, _, _) in write_plan.iter() {
-                    if !fsynced.contains(&blk.file_path) {
-                        blk.mmap.flush()?;
-                        fsynced.insert(blk.file_path.clone());
-                    }
+                // Success - fsync all touched files; a batch that cannot be made durable
+                // is rolled back like one that could not be written
+                if let Err(e) = Self::flush_batch_files(write_plan, sealed_blocks) {
+                    Self::rollback_batch(write_plan, revert_info);
+                    return Err(e);
                 }
 
-                // NOW update the writer's offset to make data visible to readers
+                // The caller now seals the filled blocks and updates the writer's block and
+                // offset to make data visible to readers
                 #[cfg(walrus_verif)]
                 crate::wal::verif::point("bw.before_publish");
-                *cur_offset = planning_offset;
 
                 debug_print!(
                     "[batch] SUCCESS: wrote {} entries, {} bytes to topic={}",
@@ -560,33 +549,82 @@ impl Writer {
                 Ok(())
             }
             Err(e) => {
-                // Clean up garbage before rollback: zero headers for all planned entries
-                for (blk, offset, _idx) in write_plan.iter() {
-                    let _ = blk.zero_range(*offset, PREFIX_META_SIZE as u64);
-                }
-
-                // Ensure zeros are persisted
-                let mut fsynced = HashSet::new();
-                for (blk, _, _) in write_plan.iter() {
-                    if fsynced.insert(blk.file_path.clone()) {
-                        let _ = blk.mmap.flush();
-                    }
-                }
-
-                // Rollback
-                *cur_offset = revert_info.original_offset;
-                for block_id in revert_info.allocated_block_ids.iter() {
-                    FileStateTracker::set_block_unlocked(*block_id as usize);
-                }
+                // Clean up garbage (zero the headers of all planned entries) and roll back
+                Self::rollback_batch(write_plan, revert_info);
                 Err(e)
             }
         }
     }
+
+    /// Flushes every file the batch wrote to or seals a block of.
+    fn flush_batch_files(
+        write_plan: &[(Block, u64, usize)],
+        sealed_blocks: &[Block],
+    ) -> std::io::Result<()> {
+        let mut fsynced = HashSet::new();
+        for blk in write_plan.iter().map(|(b, _, _)| b).chain(sealed_blocks.iter()) {
+            if !fsynced.contains(&blk.file_path) {
+                blk.mmap.flush()?;
+                fsynced.insert(blk.file_path.clone());
+            }
+        }
+        Ok(())
+    }
+
+    /// Undoes a failed batch: the headers of all planned entries are zeroed (and the zeros
+    /// flushed) so that neither a reader nor recovery ever sees them, and the blocks that
+    /// were allocated for the batch are given up. The writer's block and offset were never
+    /// moved.
+    fn rollback_batch(write_plan: &[(Block, u64, usize)], revert_info: &BatchRevertInfo) {
+        for (blk, offset, _idx) in write_plan.iter() {
+            let _ = blk.zero_range(*offset, PREFIX_META_SIZE as u64);
+        }
+        let mut fsynced = HashSet::new();
+        for (blk, _, _) in write_plan.iter() {
+            if fsynced.insert(blk.file_path.clone()) {
+                let _ = blk.mmap.flush();
+            }
+        }
+        revert_info.release_allocated_blocks();
+    }
+
+    /// Makes a completely written batch visible: blocks it filled go to the reader chain,
+    /// the last planned block becomes the writer's block.
+    fn publish_batch(
+        &self,
+        block: &mut Block,
+        cur_offset: &mut u64,
+        sealed_blocks: Vec<Block>,
+        planning_block: Block,
+        planning_offset: u64,
+    ) {
+        for sealed in sealed_blocks {
+            FileStateTracker::set_block_unlocked(sealed.id as usize);
+            if sealed.used == 0 {
+                // see Writer::write: an empty block never enters the reader chain
+                BlockStateTracker::set_checkpointed_true(sealed.id as usize);
+            } else {
+                let _ = self.reader.append_block_to_chain(&self.col, sealed);
+            }
+        }
+        *block = planning_block;
+        *cur_offset = planning_offset;
+    }
 }
 
 struct BatchRevertInfo {
-    original_offset: u64,
     allocated_block_ids: Vec<u64>,
+}
+
+impl BatchRevertInfo {
+    /// Blocks allocated for a batch that failed are never written: unlock them and count
+    /// them as consumed so that they do not keep their file alive.
+    fn release_allocated_blocks(&self) {
+        for block_id in self.allocated_block_ids.iter() {
+            FileStateTracker::set_block_unlocked(*block_id as usize);
+            BlockStateTracker::set_checkpointed_true(*block_id as usize);
+        }
+    }
 }
 
 impl Writer {
